@@ -17,6 +17,7 @@ first three, `c07_period_counterexample` / `c07_scheme_counterexample` are accep
 two (replayed on the real `Process.Packet` by the `dkgrun` engine), `c07_tampered_period_pipeline` says what the rest
 of the pipeline does with the resulting group.
 -/
+import DrandProofs.C07Net
 import Drand.Beacon.Transition
 import DrandProofs.C17
 import DrandProofs.Lemmas.Pedersen
